@@ -1,4 +1,4 @@
-import RsMatterVerif.Lemmas.AdminRefs
+import RsMatterVerif.Lemmas.AdminRec
 /-!
 # C07 — nothing bound to a fabric outlives that fabric
 
@@ -19,9 +19,12 @@ of a fabric that went away is given to the next one.
    an old session / old credentials cannot reach the new fabric.
 5. `rmfab_others_untouched`, `rollback_others_untouched`: sessions of other fabrics are unaffected.
 
-The ghost-generation form of the invariant (`NoDangling`) is kept as `C07_full_noDangling`; it
-needs, in addition, that the stored copy a rollback puts back has the generation of the fabric it
-replaces (true without store faults - `coherent_always` of C08 - and false with them, see docs).
+6. **Ghost generations** (`noDangling_always`, `restart_noDangling`, `noDangling_calm`): every fabric
+   gets a fresh generation id at `AddNOC`; a session / resumption record carries the generation it was
+   made for.  `NoDangling`: whatever is usable refers to a fabric that exists WITH THAT GENERATION - so
+   the re-use of a fabric index is covered by the invariant itself.  It holds after every history
+   without restart / factory reset, store faults included; a restart keeps it when the stored
+   resumption records fit the stored fabrics (`RecOK`).
 -/
 namespace C07
 open Admin
@@ -54,36 +57,40 @@ example : ∃ n : Node, NoRef n ∧ hasFabric n 1 = false := ⟨{}, noRef_init, 
 theorem purgeResum_fabrics (n : Node) (i : Nat) : (purgeResum n i).1.fabrics = n.fabrics :=
   (purgeResum_mem n i).1
 
-/-- RemoveFabric of an existing fabric takes its index out of the table, whatever the store answers -/
-theorem rmfab_gone (cfg : Cfg) (n : Node) (sid s idx : Nat) (mode : Mode) (h0 : idx ≠ 0)
-    (hh : hasFabric n idx = true) :
-    hasFabric (sessOp cfg n sid mode (.rmfab s idx)).1 idx = false := by
-  simp only [sessOp, h0, if_false, hh, if_true, decide_not]
-  generalize hn1 : ({ n with fabrics := n.fabrics.filter (fun f => !decide (f.idx = idx)),
-                             sessions := removeForFabric n.sessions idx (if mode.fab = idx then some sid else none) } : Node) = n1
-  have hfab1 : n1.fabrics = n.fabrics.filter (fun f => !decide (f.idx = idx)) := by rw [← hn1]
-  have hgone1 : HasIdx n1.fabrics idx = false := by rw [hfab1, hasIdx_filter_ne]; simp
-  have p1 := purgeResum_fabrics n1 idx
-  rcases hp : purgeResum n1 idx with ⟨n2, b⟩
-  rw [hp] at p1
-  simp only at p1
-  cases b with
-  | false => simp only []; rw [hasFabric_eq, p1]; exact hgone1
-  | true =>
-    simp only []
-    have hk : (removeFabricKey n2 idx).1.fabrics = n2.fabrics := by
-      unfold removeFabricKey kvTick kvCommit
-      by_cases f0 : n2.failIn = 0
-      · simp only [f0, if_true]
-        by_cases hk : n2.kv.hasFabric idx = true <;> simp [hk]
-      · by_cases f1 : n2.failIn = 1
-        · simp [f1]
-        · simp only [f0, f1, if_false]
-          by_cases hk : n2.kv.hasFabric idx = true <;> simp [hk]
-    rcases hrk : removeFabricKey n2 idx with ⟨n3, b3⟩
-    rw [hrk] at hk
-    simp only at hk
-    cases b3 <;> (simp only [ok]; rw [hasFabric_eq, hk, p1]; exact hgone1)
+/-- an acknowledged RemoveFabric of an existing fabric takes its index out of the table; a
+RemoveFabric that is answered with an error (store failure) leaves the fabric table and the sessions
+exactly as they were (fixed finding `C07-failed-removefabric-resurrects`) -/
+theorem rmfab_gone_or_untouched (cfg : Cfg) (n : Node) (sid s idx : Nat) (mode : Mode) :
+    ((sessOp cfg n sid mode (.rmfab s idx)).2 = .ok ∧
+      hasFabric (sessOp cfg n sid mode (.rmfab s idx)).1 idx = false) ∨
+    ((sessOp cfg n sid mode (.rmfab s idx)).2 ≠ .ok ∧
+      (sessOp cfg n sid mode (.rmfab s idx)).1.fabrics = n.fabrics ∧
+      (sessOp cfg n sid mode (.rmfab s idx)).1.sessions = n.sessions) := by
+  simp only [sessOp]
+  split
+  · exact Or.inr ⟨by simp, rfl, rfl⟩
+  · split
+    · have ⟨p1, p2, _⟩ := purgeResum_mem n idx
+      rcases hp : purgeResum n idx with ⟨n2, b⟩
+      rw [hp] at p1 p2
+      simp only at p1 p2
+      cases b with
+      | false => exact Or.inr ⟨by simp, p1, p2⟩
+      | true =>
+        simp only []
+        have hfr := (removeFabricKey_spec n2 idx).1
+        rcases hrk : removeFabricKey n2 idx with ⟨n3, b3⟩
+        rw [hrk] at hfr
+        simp only at hfr
+        cases b3 with
+        | false => exact Or.inr ⟨by simp, hfr.fabrics.trans p1, hfr.sessions.trans p2⟩
+        | true =>
+          refine Or.inl ⟨rfl, ?_⟩
+          simp only [ok, decide_not]
+          rw [hasFabric_eq]
+          show HasIdx (List.filter (fun f => !decide (f.idx = idx)) n3.fabrics) idx = false
+          rw [hasIdx_filter_ne]; simp
+    · exact Or.inr ⟨by simp, rfl, rfl⟩
 
 /-- a rollback that finds no stored copy takes the fail-safe's fabric out of the table -/
 theorem rollback_gone (cfg : Cfg) (n : Node) (a : Armed) (fs : List Fabric) (h0 : a.fab ≠ 0)
@@ -183,16 +190,78 @@ example : ∃ (l : List Sess) (s : Sess), s ∈ l ∧ s.mode.fab ≠ 1 ∧ some 
 
 /-! ## the ghost-generation form -/
 
-def fabGen (n : Node) (i : Nat) : Option Nat := (getFabric n i).map (·.gen)
+/-- **`NoDangling` is an invariant** (together with `StoreSub`): after every history without restart
+and factory reset - any command order, any session, reserved sessions that complete later, store
+faults at any write - every non-expired secure session and every resumption record refers to a fabric
+that exists with the generation it was made for. -/
+theorem noDangling_always (cfg : Cfg) (ops : List Op) (hno : Op.freset ∉ ops)
+    (hnr : ∀ op ∈ ops, restartLike op = false) : NoDangling (run cfg {} ops) :=
+  (run_genInv cfg ops {} genInv_init hno hnr).1
 
-/-- every non-expired secure session and every resumption record refers to a fabric that exists
-WITH THE GENERATION it was made for -/
-def NoDangling (n : Node) : Prop :=
-  (∀ s ∈ n.sessions, s.expired = false → s.mode.fab ≠ 0 → fabGen n s.mode.fab = some s.gen) ∧
-  (∀ r ∈ n.resum, fabGen n r.fab = some r.gen)
+example : ∃ ops : List Op, Op.freset ∉ ops ∧ (∀ op ∈ ops, restartLike op = false) ∧
+    (run {} {} ops).sessions.length = 2 :=
+  ⟨[.boot, .pase, .arm 0 60, .csr 0 false, .root 0 1, .addnoc 0 1 5 10 100 1, .caseEst 1 100 1],
+   by decide, by decide, by decide⟩
 
-/-- full statement (not proved; see the header) -/
+/-- a restart from a store whose resumption records fit its fabrics keeps the invariant -/
+theorem restart_noDangling (n : Node) (kv : KV) (hist : List KV) (h : RecOK kv) :
+    NoDangling (restartFrom n kv hist) :=
+  (restartFrom_genInv n kv hist h).1
+
+/-- index reuse is covered: a session or record of an earlier incarnation of the index cannot be
+usable - its generation would have to be the one of the fabric that is there now -/
+theorem no_session_of_another_incarnation (n : Node) (h : NoDangling n) (s : Sess) (hs : s ∈ n.sessions)
+    (he : s.expired = false) (h0 : s.mode.fab ≠ 0) (f : Fabric) (hf : getFabric n s.mode.fab = some f) :
+    s.gen = f.gen := by
+  have := h.1 s hs he h0
+  unfold fabGen at this
+  rw [hf] at this
+  simpa using this.symm
+
+theorem no_record_of_another_incarnation (n : Node) (h : NoDangling n) (r : Resum) (hr : r ∈ n.resum)
+    (f : Fabric) (hf : getFabric n r.fab = some f) : r.gen = f.gen := by
+  have := h.2 r hr
+  unfold fabGen at this
+  rw [hf] at this
+  simpa using this.symm
+
+/-- **Restarts included**: for every history in which no store fault fires (`Calm`: the fault
+counter is 0 in every state - decidable), restarts, crash points, corrupted resumption blobs and the
+factory-reset-before-start-up included: nothing dangles.  (Index re-use across a restart is covered:
+the stored resumption records always fit the stored fabrics, `RecOK`.) -/
+theorem noDangling_calm (cfg : Cfg) (ops : List Op) (hno : Op.freset ∉ ops) (hcalm : Calm cfg {} ops) :
+    NoDangling (run cfg {} ops) :=
+  (run_good cfg ops {} genInv_init rec_init hno hcalm).1.1
+
+/-- ... and every store a crash can leave behind is fit for a restart -/
+theorem every_snapshot_recOK (cfg : Cfg) (ops : List Op) (hno : Op.freset ∉ ops) (hcalm : Calm cfg {} ops) :
+    RecOK (run cfg {} ops).kv ∧ ∀ kv ∈ (run cfg {} ops).hist, RecOK kv := by
+  have ⟨hg, hr⟩ := run_good cfg ops {} genInv_init rec_init hno hcalm
+  exact ⟨recOK_of hg hr.live, hr.hist⟩
+
+/-- the hypotheses are satisfiable by a history with removal, restart and re-use of the index -/
+example :
+    let ops : List Op := [.boot, .pase, .arm 0 60, .csr 0 false, .root 0 1, .addnoc 0 1 5 10 100 1,
+      .caseEst 1 100 1, .complete 1, .flush, .rmfab 1 1, .restart, .boot, .pase, .arm 0 60, .csr 0 false,
+      .root 0 2, .addnoc 0 2 6 11 101 2, .caseEst 1 101 2, .complete 1, .crash 3]
+    Op.freset ∉ ops ∧ Calm {} {} ops ∧ (run {} {} ops).fabrics.length = 1 := by
+  refine ⟨by decide, by decide, by decide⟩
+
+/-- full statement: for EVERY history without factory reset - store faults and restarts together.
+FALSE of the code (open finding `C07-failed-purge-on-rollback`): when the store of the purged
+resumption cache fails during a fail-safe rollback, the stored blob keeps a record of the dropped
+fabric; after a re-commissioning that re-uses the index and a restart, the record is loaded next to
+the new fabric. -/
 def C07_full_noDangling : Prop :=
-  ∀ (cfg : Cfg) (ops : List Op), SafeHist cfg {} ops → NoDangling (run cfg {} ops)
+  ∀ (cfg : Cfg) (ops : List Op), Op.freset ∉ ops → NoDangling (run cfg {} ops)
+
+theorem C07_full_noDangling_false : ¬ C07_full_noDangling := by
+  intro h
+  have hd := h {} [.boot, .pase, .arm 0 60, .csr 0 false, .root 0 1, .addnoc 0 1 5 10 100 1, .caseEst 1 100 1,
+    .flush, .kvfail 1, .arm 1 0, .pase, .arm 2 60, .csr 2 false, .root 2 2, .addnoc 2 2 6 11 101 2,
+    .caseEst 1 101 2, .complete 3, .restart] (by decide)
+  have := hd.2 { fab := 1, peer := 100, rid := 1, gen := 1 } (by decide)
+  revert this
+  decide
 
 end C07
